@@ -2408,7 +2408,7 @@ fn parse_lambda_implicit<'a>(
                 group: false,
                 variant: Variant::Lambda(
                     SourceVariable {
-                        source_range: token_source_range(tokens, start),
+                        source_range: token_source_range(tokens, start + 1),
                         name: variable,
                     },
                     true,
